@@ -8,7 +8,8 @@ cd "$(dirname "$0")/.."
 J=3
 if [ "$1" = "-j" ]; then J=$2; shift 2; fi
 SEEDS=("$@")
-if [ ${#SEEDS[@]} -eq 0 ]; then SEEDS=($(ls seeded | sort)); fi
+ALLSEEDS=0
+if [ ${#SEEDS[@]} -eq 0 ]; then SEEDS=($(ls -d seeded/*/ | xargs -n1 basename | sort)); ALLSEEDS=1; fi
 OUT=$(mktemp -d /tmp/seedreg.XXXXXX)
 one() {
   sid=$1
@@ -34,6 +35,6 @@ export OUT
 printf "%s\n" "${SEEDS[@]}" | xargs -P $J -I{} bash -c 'one {}' | tee $OUT/result.txt
 n=$(grep -c . $OUT/result.txt); c=$(grep -c CAUGHT $OUT/result.txt); m=$(grep -c MISSED $OUT/result.txt); a=$(grep -c NOAPPLY $OUT/result.txt)
 echo "seed_regress: $n lines, $c caught, $m missed, $a did not apply"
-cp $OUT/result.txt /verif/seeded/REGRESS_RESULT.txt
+if [ $ALLSEEDS = 1 ]; then sort $OUT/result.txt > /verif/seeded/REGRESS_RESULT.txt; fi
 rm -rf $OUT
 [ "$m" = "0" ]
